@@ -129,6 +129,60 @@ func c18Run(w c18Work) (h uint64, err error) {
 		}
 		d.add(fmt.Sprint(cpu.Raw()))
 		memDigest(&d, mem)
+	case "prifork", "altfork": // a CPU forked from another with InitFrom into an already initialised object
+		mk := func() rig.CPU {
+			if w.Kind == "prifork" {
+				return rig.NewPrimary()
+			}
+			return rig.NewAlt()
+		}
+		a := mk()
+		ma := rig.NewMem(w.Seed)
+		a.SetMem(ma)
+		a.LoadRaw(c18State(w.Seed))
+		for i := 0; i < w.N/2; i++ {
+			if _, _, p := a.Step(); p != nil {
+				break
+			}
+		}
+		b := mk()
+		switch bb := b.(type) {
+		case *rig.Primary:
+			bb.C.InitFrom(a.(*rig.Primary).C, bb.Bus)
+		case *rig.Alt:
+			bb.C.InitFrom(a.(*rig.Alt).C)
+			bb.Rebind()
+		}
+		mb := ma.Clone()
+		b.SetMem(mb)
+		ref := mk()
+		mr := ma.Clone()
+		ref.SetMem(mr)
+		ref.LoadRaw(a.Raw())
+		before := a.Raw()
+		var sumA uint64
+		for k, v := range ma.Over {
+			sumA += rig.Hash64(k, v)
+		}
+		for i := 0; i < w.N; i++ {
+			_, _, p1 := b.Step()
+			_, _, p2 := ref.Step()
+			if p1 != nil || p2 != nil {
+				break
+			}
+		}
+		if b.Raw() != ref.Raw() || len(rig.DiffMem(mb, mr, 1)) > 0 {
+			return 0, fmt.Errorf("%s(seed %d): a CPU forked with InitFrom ran differently from a fresh CPU loaded with the same state: fork %+v, fresh %+v", w.Kind, w.Seed, b.Raw(), ref.Raw())
+		}
+		var sumA2 uint64
+		for k, v := range ma.Over {
+			sumA2 += rig.Hash64(k, v)
+		}
+		if a.Raw() != before || sumA != sumA2 {
+			return 0, fmt.Errorf("%s(seed %d): stepping the forked CPU changed the CPU it was forked from: %+v -> %+v", w.Kind, w.Seed, before, a.Raw())
+		}
+		d.add(fmt.Sprint(b.Raw()))
+		memDigest(&d, mb)
 	case "emitter":
 		em := asm.NewEmitter(make([]byte, needOf(w.Ops)+8), true)
 		for _, o := range w.Ops {
@@ -270,18 +324,18 @@ func init() {
 }
 
 func TestC18(t *testing.T) {
-	rig.Main(t, "C18", "rapid rounds of 14-32 workloads (every kind at least twice per round), each a pure function of its drawn parameters on freshly created instances (emulator.System with trace logger; System with the "+
-		"real memory map; cpu65c816+bus with disassembly; cpualt with disassembly; emitter history with listings, Clone and Finalize; ROM header parse/rewrite and bus readers/writers; "+
+	rig.Main(t, "C18", "rapid rounds of 18-36 workloads (every kind at least twice per round), each a pure function of its drawn parameters on freshly created instances (emulator.System with trace logger; System with the "+
+		"real memory map; cpu65c816+bus with disassembly; cpualt with disassembly; CPUs of both kinds forked with InitFrom; emitter history with listings, Clone and Finalize; ROM header parse/rewrite and bus readers/writers; "+
 		"mapper and colour functions): run one after another, then all at once on separate goroutines released by a common barrier in a binary built with the Go race detector; every "+
 		"digest must be unchanged and the race detector must stay silent.  Non-trivial = at least two workloads of the same kind were in flight together; distinct = hash(round).",
 		func(r *rig.Run) {
 			ev := r.Ev
-			kinds := []string{"system", "sysmap", "pri", "alt", "emitter", "rom", "pure"}
+			kinds := []string{"system", "sysmap", "pri", "alt", "prifork", "altfork", "emitter", "rom", "pure"}
 			var overlapped int64
-			r.Rapid("rounds", rig.Pick(3, 40), func(t *rapid.T) {
+			r.Rapid("rounds", rig.Pick(2, 30), func(t *rapid.T) {
 				// every kind at least twice per round (shared state is only exposed when two instances of the
 				// same code run together), plus a drawn number of extra workloads
-				n := 2*len(kinds) + rapid.IntRange(0, rig.Pick(4, 18)).Draw(t, "extra")
+				n := 2*len(kinds) + rapid.IntRange(0, rig.Pick(2, 18)).Draw(t, "extra")
 				var c c18Case
 				for i := 0; i < n; i++ {
 					w := c18Work{Kind: kinds[i%len(kinds)], Seed: rapid.Uint32().Draw(t, "seed")}
@@ -291,7 +345,7 @@ func TestC18(t *testing.T) {
 					switch w.Kind {
 					case "system":
 						w.N = rapid.IntRange(50, 600).Draw(t, "cycles")
-					case "pri", "alt":
+					case "pri", "alt", "prifork", "altfork":
 						w.N = rapid.IntRange(20, 200).Draw(t, "steps")
 					case "emitter":
 						w.Ops = asmcat.GenHistory(t, asmcat.GenOpts{MaxOps: 40, Labels: true, Data: true, Comments: true, SetBase: true, Assume: true, BadGuard: true})
